@@ -82,6 +82,17 @@ def hygiene():
         src = strip_comments(open(f, errors="replace").read())
         for m in FORBIDDEN.finditer(src):
             bad.append("%s: %s" % (os.path.relpath(f, ROOT), m.group(0)))
+        # Variable / Hypothesis / Context outside a Section declare axioms too
+        stack = []
+        for line in src.splitlines():
+            ms = re.match(r"\s*(Section|Module(?:\s+Type)?)\s+(\w+)", line)
+            if ms and ":=" not in line:
+                stack.append(ms.group(1).split()[0])
+            me = re.match(r"\s*End\s+\w+\s*\.", line)
+            if me and stack:
+                stack.pop()
+            if re.match(r"\s*(Variables?|Hypothes[ie]s|Context)\b", line) and "Section" not in stack:
+                bad.append("%s: %s outside a Section" % (os.path.relpath(f, ROOT), line.strip()[:60]))
     cp = open(os.path.join(COQ, "_CoqProject")).read()
     for m in FORBIDDEN.finditer(cp):
         bad.append("_CoqProject: " + m.group(0))
